@@ -155,6 +155,8 @@ def _one(fr, size, lenreq, corr, items, env, record=True):
 
 
 def correspond(ctx, corr, model_ok):
+    from harness import battery
+    battery.run(corr, ['stale-partial-across-reconnect'])
     rng = ctx.rng
     items = []
     sizes = [64, 65, 70, 128] if not ctx.thorough else [64, 65, 66, 70, 127, 128, 1000]
@@ -208,6 +210,8 @@ def correspond(ctx, corr, model_ok):
                                                              'lenreq': lenreq})
         corr.extra['oracle_exhaustive_window'] = cnt
         corr.evaluations += cnt
+    corr.oracle_failures.extend(endpoint_size_oracle())
+    corr.count('endpoints with fragmentation: every request API, responses and elements in both roles, judged on the wire', 8)
     nb = ctx.scale(60, 1500)
     corr.oracle_failures.extend(burst_oracle(rng, nb))
     corr.count('bursts through the real sender', nb)
@@ -296,6 +300,9 @@ def search(ctx, budget_s):
         bad = burst_oracle(rng, 40)
         if bad:
             return bad[:1]
+        bad = endpoint_size_oracle()
+        if bad:
+            return bad[:1]
     return []
 
 
@@ -311,8 +318,14 @@ def _unrepr(x):
 
 
 def replay(obj):
+    from harness import battery as _bat
+    _r = _bat.replay(obj.get('case') if isinstance(obj.get('case'), dict) else obj)
+    if _r is not None:
+        return _r
     import ast
     case = obj['case']
+    if case.get('kind') == 'endpoint-size':
+        return bool(endpoint_size_oracle())
     if case.get('kind') == 'burst':
         from harness.props import c05
         script = [tuple(_unrepr(st)) for st in case['script']]
@@ -330,3 +343,118 @@ def replay(obj):
     if o:
         print('oracle:', o[0])
     return bool(o) and o[1] is None
+
+
+# ---------------------------------------------------------------------------------------------
+# every way a payload can leave an ENDPOINT with fragmentation configured: the five request APIs, responses, stream and
+# channel elements in both roles.  What is judged is what reaches the transport.
+
+def run_endpoint_sizes(role, size, lenreq, n_bytes):
+    import asyncio
+    from datetime import timedelta
+    from harness import sim
+    from rsocket.rsocket_client import RSocketClient
+    from rsocket.rsocket_server import RSocketServer
+    from rsocket.request_handler import BaseRequestHandler
+    from rsocket.helpers import single_transport_provider, create_future
+    from rsocket.payload import Payload
+    from rsocket.streams.stream_from_generator import StreamFromGenerator
+    from reactivestreams.subscriber import DefaultSubscriber
+    loop = sim.new_loop()
+    sim.patch_clock(loop)
+    T = sim.make_transport_class()
+    t = T(lenreq=lenreq)
+    big = lambda tag: tag + FR.pat(17, 0, n_bytes - len(tag))       # noqa: E731
+    sent_payloads = []
+
+    def src(tag):
+        def g():
+            for i in range(2):
+                p = big(b'%s%d|' % (tag, i))
+                sent_payloads.append(p)
+                yield Payload(p), i == 1
+        return StreamFromGenerator(g)
+
+    class H(BaseRequestHandler):
+        async def request_response(self, payload):
+            f = create_future()
+            p = big(b'resp|')
+            sent_payloads.append(p)
+            f.set_result(Payload(p))
+            return f
+
+        async def request_stream(self, payload):
+            return src(b'selem')
+
+        async def request_channel(self, payload):
+            return src(b'celem'), DefaultSubscriber()
+    box = {}
+    try:
+        def mk():
+            if role == 'client':
+                box['e'] = RSocketClient(single_transport_provider(t), handler_factory=H, fragment_size_bytes=size,
+                                         keep_alive_period=timedelta(seconds=1000), max_lifetime_period=timedelta(seconds=5000))
+                asyncio.create_task(box['e'].connect())
+            else:
+                box['e'] = RSocketServer(t, handler_factory=H, fragment_size_bytes=size)
+        loop.run(mk)
+        loop.settle()
+        e = box['e']
+        t.sent.clear()
+
+        def requests():
+            for tag, call in ((b'rr|', lambda p: e.request_response(p)), (b'fnf|', lambda p: e.fire_and_forget(p)),
+                              (b'rs|', lambda p: e.request_stream(p).subscribe(DefaultSubscriber())),
+                              (b'rc|', lambda p: e.request_channel(p, src(b'mine')).subscribe(DefaultSubscriber())),
+                              (b'rc2|', lambda p: e.request_channel(p).initial_request_n(7).subscribe(DefaultSubscriber()))):
+                p = big(tag)
+                sent_payloads.append(p)
+                call(Payload(p))
+        loop.run(requests)
+        loop.settle()
+        # the peer: asks for everything our channel publisher has, and makes requests of its own that we answer
+        peer_first = 2 if role == 'client' else 1
+        mine = [sim.parse_sent(b) for b in t.sent]
+        for f in mine:
+            if f['t'] == 'RequestChannel' and not f.get('follows') or (f['t'] == 'RequestChannel'):
+                t.inject_frame(FR.build({'t': 'RequestN', 'sid': f['sid'], 'ign': False, 'n': 100}).serialize())
+        for k, ty in enumerate(('RequestResponse', 'RequestStream', 'RequestChannel')):
+            fr = {'t': ty, 'sid': peer_first + 2 * k, 'ign': False, 'follows': False, 'md': b'', 'd': b'peer'}
+            if ty != 'RequestResponse':
+                fr['n'] = 100
+            if ty == 'RequestChannel':
+                fr['complete'] = False
+            t.inject_frame(FR.build(fr).serialize())
+        loop.settle()
+        return [bytes(b) for b in t.sent], sent_payloads
+    finally:
+        loop.finish()
+
+
+def endpoint_size_oracle():
+    from rsocket.frame import parse_or_ignore
+    from rsocket.frame_fragment_cache import FrameFragmentCache
+    out = []
+    for role in ('client', 'server'):
+        for size, lenreq, n_bytes in ((64, True, 300), (64, False, 300), (100, True, 95), (64, False, 116)):
+            wire, payloads = run_endpoint_sizes(role, size, lenreq, n_bytes)
+            bad = []
+            cache = FrameFragmentCache()
+            got = []
+            for b in wire:
+                if len(b) + (3 if lenreq else 0) > size:
+                    d = FR.describe(parse_or_ignore(b))
+                    bad.append('%s frame of %d bytes on the wire (stream %d), fragment size %d' % (d['t'], len(b) + (3 if lenreq else 0), d['sid'], size))
+                fobj = parse_or_ignore(b)
+                d = FR.describe(fobj)
+                if d['t'] in FTYPES:
+                    r = cache.append(fobj)
+                    if r is not None:
+                        got.append(bytes(FR.describe(r).get('d') or b''))
+            missing = [p[:12] for p in payloads if p not in got]
+            if missing:
+                bad.append('payloads not reassembled intact from the wire: %r' % missing[:4])
+            if bad:
+                out.append({'what': 'endpoint with fragment size %d: %s' % (size, '; '.join(bad[:3])), 'kind': 'endpoint-size',
+                            'endpoint_size_case': [role, size, lenreq, n_bytes]})
+    return out
